@@ -638,7 +638,7 @@ Theorem mutes_correct S now C ls :
     NoDup ids /\ (forall k, k ∈ ids <-> Brute S ls now k) /\ (b = true <-> ids <> []) /\
     CI S now ls (C' ls) /\ (forall ls', ls' <> ls -> C' ls' = C ls').
 Proof.
-  intros HS HC. pose proof HC as [C1 C2 C3]. unfold mutes.
+  intros HS HC. pose proof HC as [C1 C2 C3]. unfold mutes, mutes_at.
   assert (Hnov : forall k vv, (vv, k) ∈ vi S -> ver S < vv -> False).
   { intros k vv Hin Hlt. pose proof (inv_ver _ _ (si_inv _ HS)) as Hf. rewrite Forall_forall in Hf.
     specialize (Hf _ Hin). cbn in Hf. lia. }
@@ -732,8 +732,15 @@ Proof.
   - exact Hsame.
 Qed.
 
-Definition wf_cop (S : store) (o : cop) : Prop :=
-  match o with CStore so => wf_sop S so | _ => True end.
+(* a sequence of store operations at one instant (those injected into a Mutes call) *)
+Fixpoint wf_ops (c : cfg) (S : store) (now : Z) (ops : list op) : Prop :=
+  match ops with
+  | [] => True
+  | o :: r => wf_sop S o /\ wf_ops c (fst (step c x S now o)) now r
+  end.
+
+Definition wf_cop (c : cfg) (S : store) (now : Z) (o : cop) : Prop :=
+  match o with CStore so => wf_sop S so | CMutesI _ _ ops => wf_ops c S now ops | _ => True end.
 
 Definition CInv (t : Z) (SC : store * cache) : Prop :=
   SInv (fst SC) /\ forall ls, CI (fst SC) t ls (snd SC ls).
@@ -788,14 +795,155 @@ Proof.
   exists ids, C'. unfold set_silenced. rewrite decide_True by reflexivity. auto.
 Qed.
 
+(* ---------- late cache write (the sequentially consistent part of the concurrency claim) ---------- *)
+
+(* store-only histories between the moment an entry is computed and the moment it is written *)
+Inductive sreach (c : cfg) : Z -> store -> Z -> store -> Prop :=
+| sr_refl t S : sreach c t S t S
+| sr_step t S now o t' S' : t <= now -> wf_sop S o -> sreach c now (fst (step c x S now o)) t' S' -> sreach c t S t' S'
+| sr_wait t S now t' S' : t <= now -> sreach c now S t' S' -> sreach c t S t' S'.
+
+Lemma sreach_inv c t S t' S' : sreach c t S t' S' -> SInv S ->
+  SInv S' /\ forall ls e, CI S t ls e -> CI S' t' ls e.
+Proof.
+  induction 1 as [t S|t S now o t' S' Hle Hwf _ IH|t S now t' S' Hle _ IH]; intros HS.
+  - split; [exact HS|auto].
+  - destruct (store_step_inv c S t now o HS Hle Hwf) as [HS1 HC1]. destruct (IH HS1) as [HS' HC']. split; [exact HS'|].
+    intros ls e HC. apply HC', HC1, HC.
+  - destruct (IH HS) as [HS' HC']. split; [exact HS'|]. intros ls e HC. apply HC'. eapply ci_time; eauto.
+Qed.
+
+(* ---------- Mutes interleaved with store operations ---------- *)
+
+Lemma ci_ext S now ls v ids1 ids2 :
+  (forall k, k ∈ ids1 <-> k ∈ ids2) -> CI S now ls (mkCE v ids1) -> CI S now ls (mkCE v ids2).
+Proof.
+  intros Heq [H1 H2 H3]. cbn in *. constructor; cbn; [exact H1| |].
+  - intros k p Hp Hm Hs. destruct (H2 k p Hp Hm Hs) as [Hin|Hr]; [left; apply Heq; exact Hin|right; exact Hr].
+  - intros k Hk. apply H3. apply Heq. exact Hk.
+Qed.
+
+Definition live_at (now : Z) (s : silence) : Prop := sil_state s now <> SExpired.
+
+(* after the Query of the cached ids, (cached version, ids returned) is itself a valid entry *)
+Lemma read_old_ci S now ls e :
+  SInv S -> CI S now ls e ->
+  exists olds, read_old x S now (ce_ids e) = Some olds /\
+    CI S now ls (mkCE (ce_ver e) (map s_id olds)) /\ Forall (live_at now) olds.
+Proof.
+  intros HS [C1 C2 C3]. destruct (read_old_spec S now (ce_ids e)) as (olds & Hr & Hl). exists olds. split; [exact Hr|].
+  pose proof (inv_key _ _ (si_inv _ HS)) as Hkey. split.
+  - constructor; cbn; [exact C1| |].
+    + intros k p Hp Hm Hs. destruct (C2 k p Hp Hm Hs) as [Hin|Hr']; [left|right; exact Hr'].
+      apply elem_of_list_fmap. exists (m_sil p). split; [symmetry; apply (Hkey _ _ Hp)|]. apply Hl. exists k, p. auto.
+    + intros k Hk. apply elem_of_list_fmap in Hk as (s0 & -> & Hin). apply Hl in Hin as (k & p & Hk & Hp & <- & _).
+      change (s_id (m_sil p)) with (m_id p). rewrite (Hkey _ _ Hp). apply C3. exact Hk.
+  - apply Forall_forall. intros s0 Hin. apply Hl in Hin as (k & p & _ & _ & <- & Hs). exact Hs.
+Qed.
+
+(* after the QSince query, (store version, previous ids + ids returned) is a valid entry *)
+Lemma read_new_ci S now ls e :
+  SInv S -> CI S now ls e ->
+  exists news, read_new x S now (ce_ver e) ls = Some (news, ver S) /\
+    CI S now ls (mkCE (ver S) (ce_ids e ++ map s_id news)) /\ Forall (live_at now) news.
+Proof.
+  intros HS [C1 C2 C3]. destruct (read_new_spec S now (ce_ver e) ls HS) as (news & Hr & Hl). exists news. split; [exact Hr|].
+  pose proof (inv_key _ _ (si_inv _ HS)) as Hkey. split.
+  - constructor; cbn; [lia| |].
+    + intros k p Hp Hm Hs. left. apply elem_of_app. destruct (C2 k p Hp Hm Hs) as [Hin|(vv & Hin & Hlt)]; [left; exact Hin|right].
+      apply elem_of_list_fmap. exists (m_sil p). split; [symmetry; apply (Hkey _ _ Hp)|]. apply Hl. exists k, p, vv.
+      repeat split; assumption.
+    + intros k Hk. apply elem_of_app in Hk as [Hk|Hk]; [apply C3; exact Hk|].
+      apply elem_of_list_fmap in Hk as (s0 & -> & Hin). apply Hl in Hin as (k & p & vv & _ & _ & Hp & <- & _ & Hm).
+      change (s_id (m_sil p)) with (m_id p). rewrite (Hkey _ _ Hp). exact Hm.
+  - apply Forall_forall. intros s0 Hin. apply Hl in Hin as (k & p & vv & _ & _ & _ & <- & Hs & _). exact Hs.
+Qed.
+
+(* the entry decide_mutes writes: the given version and, as a set, the ids of everything read (all of it is live at
+   the instant of the reads, so the state filter drops nothing) *)
+Lemma decide_mutes_entry now olds news nv :
+  Forall (live_at now) olds -> Forall (live_at now) news ->
+  exists ids r, decide_mutes now olds news nv = (mkCE nv ids, r) /\
+    forall k, k ∈ ids <-> k ∈ map s_id olds ++ map s_id news.
+Proof.
+  intros Ho Hn. unfold decide_mutes. destruct (olds ++ news) as [|s0 L'] eqn:EL.
+  - apply app_eq_nil in EL as [-> ->]. exists [], (MOk false []). split; reflexivity.
+  - rewrite <- EL. clear EL s0 L'. eexists _, _. split; [reflexivity|]. intros k. rewrite <- map_app.
+    assert (HL : Forall (live_at now) (olds ++ news)) by (apply Forall_app; auto). rewrite Forall_forall in HL.
+    rewrite !elem_of_list_fmap. split.
+    + intros (s0 & -> & Hin). apply elem_of_list_filter in Hin as [_ Hin]. apply dedup_id_sub in Hin as [Hin _]. eauto.
+    + intros (s0 & -> & Hin). destruct (dedup_id_complete _ [] s0 Hin) as (s' & Hin' & Hid); [intros H; inversion H|].
+      exists s'. split; [symmetry; exact Hid|]. apply elem_of_list_filter. split; [|exact Hin'].
+      pose proof (dedup_id_sub _ _ _ Hin') as [HinL _]. specialize (HL _ HinL). unfold live_at in HL. unfold not_expired_b.
+      destruct (sil_state s' now); [reflexivity..|congruence].
+Qed.
+
+(* THE CACHE INVARIANT SURVIVES ANY INTERLEAVING OF STORE OPERATIONS WITH ONE MUTES CALL (reads at one clock value):
+   Cr = cache at the cache read, Sv / So / Sn = store at the Version() read / at the Query of the cached ids / at the
+   QSince query, (Se, te, Cw) = store, instant and cache at the cache write. Sv is arbitrary: the version comparison
+   only selects the branch. *)
+Theorem mutes_at_inv now Cr Sv So Sn Cw ls Se te :
+  SInv So -> SInv Sn -> CI So now ls (Cr ls) ->
+  (forall e, CI So now ls e -> CI Sn now ls e) ->
+  (forall e, CI Sn now ls e -> CI Se te ls e) ->
+  (forall ls', CI Se te ls' (Cw ls')) ->
+  forall ls', CI Se te ls' (fst (mutes_at x now Cr Sv So Sn Cw ls) ls').
+Proof.
+  intros HSo HSn HC Hon Hne HCw.
+  assert (Hslow : forall upto : bool, forall ls',
+    CI Se te ls' (fst (match read_old x So now (ce_ids (Cr ls)) with
+                       | None => (Cw, MPanic)
+                       | Some olds =>
+                           match (if upto then Some ([], ce_ver (Cr ls)) else read_new x Sn now (ce_ver (Cr ls)) ls) with
+                           | None => (Cw, MPanic)
+                           | Some (news, nv) => let '(e', r) := decide_mutes now olds news nv in (cache_set Cw ls e', r)
+                           end
+                       end) ls')).
+  { intros upto ls'. destruct (read_old_ci So now ls (Cr ls) HSo HC) as (olds & -> & HC1 & Holds).
+    assert (Hfin : forall news nv, Forall (live_at now) news -> CI Sn now ls (mkCE nv (map s_id olds ++ map s_id news)) ->
+              CI Se te ls' (fst (let '(e', r) := decide_mutes now olds news nv in (cache_set Cw ls e', r)) ls')).
+    { intros news nv Hnews HC2. destruct (decide_mutes_entry now olds news nv Holds Hnews) as (ids & r & -> & Hids).
+      cbn [fst]. unfold cache_set. destruct (decide (ls' = ls)) as [->|Hne']; [|apply HCw].
+      apply Hne. eapply ci_ext; [|exact HC2]. intros k. symmetry. apply Hids. }
+    destruct upto.
+    - apply Hfin; [constructor|]. rewrite app_nil_r. apply Hon. exact HC1.
+    - destruct (read_new_ci Sn now ls _ HSn (Hon _ HC1)) as (news & Hr & HC2 & Hnews). cbn [ce_ver ce_ids] in Hr, HC2.
+      rewrite Hr. apply Hfin; assumption. }
+  intros ls'. unfold mutes_at. destruct (ce_ids (Cr ls)) as [|id0 ids0] eqn:Eids.
+  - destruct (ce_ver (Cr ls) =? ver Sv); [apply HCw|]. specialize (Hslow false ls'). try rewrite Eids in Hslow. exact Hslow.
+  - specialize (Hslow (ce_ver (Cr ls) =? ver Sv) ls'). try rewrite Eids in Hslow. exact Hslow.
+Qed.
+
+Lemma run_store_sreach c now ops : forall S,
+  wf_ops c S now ops -> sreach c now S now (run_store c x S (map (fun o => (now, o)) ops)).
+Proof.
+  induction ops as [|o r IH]; intros S Hwf; [constructor|]. destruct Hwf as [Ho Hr]. cbn [map]. rewrite run_store_cons.
+  eapply (sr_step c now S now o); [lia|exact Ho|]. apply IH. exact Hr.
+Qed.
+
 (* one step of an instance keeps the invariants *)
 Theorem cstep_inv c t SC now o :
-  CInv t SC -> t <= now -> wf_cop (fst SC) o -> CInv now (fst (cstep c x SC now o)).
+  CInv t SC -> t <= now -> wf_cop c (fst SC) now o -> CInv now (fst (cstep c x SC now o)).
 Proof.
   intros HI Hle Hwf. destruct SC as [S C]. pose proof HI as [HS HC]. cbn [fst snd] in *.
   assert (Hsame : CInv now (S, C)).
   { split; [exact HS|]. intros ls. eapply ci_time; eauto. }
-  destruct o as [so|order|ls|ls|alerts|fps|]; cbn [cstep fst snd wf_cop] in *.
+  destruct o as [so|order|ls|ls pt ops|ls|alerts|fps|]; cbn [cstep fst snd wf_cop] in *.
+  4: { (* Mutes with store operations landing inside the call *)
+    pose proof (run_store_sreach c now ops S Hwf) as Hr. unfold run_store in Hr.
+    destruct (run c x S (map (fun o => (now, o)) ops)) as [S1 outs]. cbn [fst] in Hr.
+    destruct (sreach_inv c now S now S1 Hr HS) as [HS1 Hk].
+    assert (HCn : forall ls', CI S now ls' (C ls')) by (intros ls'; eapply ci_time; eauto).
+    assert (HC1 : forall ls', CI S1 now ls' (C ls')) by (intros ls'; apply Hk, HCn).
+    assert (Hgoal : forall Sv So Sn, SInv So -> SInv Sn -> CI So now ls (C ls) ->
+              (forall e, CI So now ls e -> CI Sn now ls e) -> (forall e, CI Sn now ls e -> CI S1 now ls e) ->
+              CInv now (S1, fst (mutes_at x now C Sv So Sn C ls))).
+    { intros Sv So Sn H1 H2 H3 H4 H5. split; [exact HS1|]. cbn [fst snd]. eapply mutes_at_inv; eauto. }
+    destruct pt.
+    - specialize (Hgoal S1 S1 S1 HS1 HS1 (HC1 ls) (fun e H => H) (fun e H => H)). destruct (mutes_at _ _ _ _ _ _ _ _); exact Hgoal.
+    - specialize (Hgoal S S1 S1 HS1 HS1 (HC1 ls) (fun e H => H) (fun e H => H)). destruct (mutes_at _ _ _ _ _ _ _ _); exact Hgoal.
+    - specialize (Hgoal S S S1 HS HS1 (HCn ls) (Hk ls) (fun e H => H)). destruct (mutes_at _ _ _ _ _ _ _ _); exact Hgoal.
+    - specialize (Hgoal S S S HS HS (HCn ls) (fun e H => H) (Hk ls)). destruct (mutes_at _ _ _ _ _ _ _ _); exact Hgoal. }
   - destruct (store_step_inv c S t now so HS Hle Hwf) as [HS' HC']. destruct (step c x S now so) as [S' y].
     cbn [fst snd] in *. split; [exact HS'|]. intros ls. apply HC'. apply HC.
   - destruct (reload_sinv S order HS) as (S' & -> & HS' & _). cbn [fst snd]. split; [exact HS'|].
@@ -832,7 +980,7 @@ Definition judged (SC : store * cache) (now : Z) (o : cop) (y : cout) : Prop :=
 
 Lemma cstep_judged c t SC now o : CInv t SC -> t <= now -> judged SC now o (snd (cstep c x SC now o)).
 Proof.
-  intros HI Hle. destruct SC as [S C]. destruct o as [so|order|ls|ls|alerts|fps|]; cbn [judged cstep fst snd]; try exact I.
+  intros HI Hle. destruct SC as [S C]. destruct o as [so|order|ls|ls pt ops|ls|alerts|fps|]; cbn [judged cstep fst snd]; try exact I.
   - destruct (mutes_brute t S C now ls HI Hle) as (b & ids & C' & -> & Hb & Hp & _). cbn [snd]. eauto 10.
   - destruct (api_status_correct t S C now ls HI Hle) as (ids & C' & -> & Hp & _). cbn [snd]. eauto.
   - destruct (mute_stage_correct alerts t S C now HI Hle) as (C' & -> & _). reflexivity.
@@ -842,7 +990,7 @@ Qed.
 Fixpoint hist_ok (c : cfg) (SC : store * cache) (t : Z) (h : list (Z * cop)) : Prop :=
   match h with
   | [] => True
-  | (now, o) :: r => t <= now /\ wf_cop (fst SC) o /\ hist_ok c (fst (cstep c x SC now o)) now r
+  | (now, o) :: r => t <= now /\ wf_cop c (fst SC) now o /\ hist_ok c (fst (cstep c x SC now o)) now r
   end.
 
 Fixpoint all_judged (c : cfg) (SC : store * cache) (h : list (Z * cop)) : Prop :=
@@ -870,22 +1018,22 @@ Proof.
   destruct (IH SC1 now HI1 Hr) as (t' & HI'). destruct (crun c x SC1 r) as [SC2 ys]. exists t'. exact HI'.
 Qed.
 
-(* ---------- late cache write (the sequentially consistent part of the concurrency claim) ---------- *)
+(* ---------- concurrency: one Mutes call against arbitrary store traffic ---------- *)
 
-(* store-only histories between the moment an entry is computed and the moment it is written *)
-Inductive sreach (c : cfg) : Z -> store -> Z -> store -> Prop :=
-| sr_refl t S : sreach c t S t S
-| sr_step t S now o t' S' : t <= now -> wf_sop S o -> sreach c now (fst (step c x S now o)) t' S' -> sreach c t S t' S'
-| sr_wait t S now t' S' : t <= now -> sreach c now S t' S' -> sreach c t S t' S'.
-
-Lemma sreach_inv c t S t' S' : sreach c t S t' S' -> SInv S ->
-  SInv S' /\ forall ls e, CI S t ls e -> CI S' t' ls e.
+(* The call starts in a state satisfying the invariants (cache read at (S0, C0)); store operations run before the
+   Query of the cached ids (reaching So at instant now), between the two Queries (Sn, same clock value) and after
+   them, for as long as one likes (Se at te); whatever the cache holds by then (Cw: other Mutes calls' entries, evicted
+   entries) is overwritten for this label set. The invariants hold afterwards, so every later call is exact. *)
+Theorem mutes_interleaved_inv c t0 S0 C0 now Sv So Sn te Se Cw ls :
+  CInv t0 (S0, C0) ->
+  sreach c t0 S0 now So -> sreach c now So now Sn -> sreach c now Sn te Se ->
+  (forall ls', CI Se te ls' (Cw ls')) ->
+  CInv te (Se, fst (mutes_at x now C0 Sv So Sn Cw ls)).
 Proof.
-  induction 1 as [t S|t S now o t' S' Hle Hwf _ IH|t S now t' S' Hle _ IH]; intros HS.
-  - split; [exact HS|auto].
-  - destruct (store_step_inv c S t now o HS Hle Hwf) as [HS1 HC1]. destruct (IH HS1) as [HS' HC']. split; [exact HS'|].
-    intros ls e HC. apply HC', HC1, HC.
-  - destruct (IH HS) as [HS' HC']. split; [exact HS'|]. intros ls e HC. apply HC'. eapply ci_time; eauto.
+  intros [HS0 HC0] H1 H2 H3 HCw. cbn [fst snd] in *.
+  destruct (sreach_inv c _ _ _ _ H1 HS0) as [HSo K1]. destruct (sreach_inv c _ _ _ _ H2 HSo) as [HSn K2].
+  destruct (sreach_inv c _ _ _ _ H3 HSn) as [HSe K3]. split; [exact HSe|]. cbn [fst snd].
+  apply mutes_at_inv; auto.
 Qed.
 
 (* An entry computed by Mutes from an atomic view (S1, t1) of the store may be written arbitrarily late — after any
